@@ -7,6 +7,7 @@ import itertools
 import json
 
 import pjrpc
+import pjrpc.server
 from pjrpc.common import UNSET, v20
 from pjrpc.common.exceptions import JsonRpcError
 
@@ -150,6 +151,15 @@ def texts(msg):
         raise Bad('serialised-text-is-not-json', text=t1, error=str(e))
     if not typed_eq(d1, d2):
         raise Bad('JSONEncoder-differs-from-to_json', via_to_json=t1, via_encoder=t2)
+    # the server-side encoder class (what a dispatcher is configured with) is a library JSON encoder as well, also for
+    # messages nested inside other values
+    try:
+        t3 = json.dumps({'wrapped': [msg]}, cls=pjrpc.server.JSONEncoder)
+        d3 = strictjson.decode(t3)
+    except Exception as e:
+        raise Bad(f'server-JSONEncoder-raises:{type(e).__name__}', via_to_json=t1)
+    if not typed_eq(d3, {'wrapped': [d1]}):
+        raise Bad('server-JSONEncoder-differs-from-to_json', via_to_json=t1, via_encoder=t3)
     return w1, t1, d1
 
 
